@@ -9,8 +9,10 @@ mod core;
 mod hooks;
 mod mmio;
 mod out;
+mod scen_cfg;
 mod scen_layout;
 mod scen_life;
+mod scen_mmio;
 mod scen_vq;
 mod zoo;
 mod transport;
@@ -111,6 +113,8 @@ fn main() {
         "vq" => family_vq(&args),
         "layout" => family_layout(&args),
         "life" => family_life(&args),
+        "mmio" => family_mmio(&args),
+        "cfg" => family_cfg(&args),
         f => {
             eprintln!("unknown family {f}");
             2
@@ -200,6 +204,38 @@ fn family_life(args: &Args) -> i32 {
     let res = run_parallel_multi(jobs, |p, k| run(p, &format!("life-{k}")), vec![out.clone(), outq.clone()]);
     let idx = json!({"family":"life","scenarios":index,"summaries":res,"events":out.events.load(Ordering::Relaxed),
                      "qevents":outq.events.load(Ordering::Relaxed)});
+    std::fs::write(format!("{}.index.json", args.out), serde_json::to_string(&idx).unwrap()).unwrap();
+    0
+}
+
+fn family_mmio(args: &Args) -> i32 {
+    use scen_mmio::*;
+    let jobs: Vec<MmioParams> = if let Some(r) = &args.replay {
+        let v: Value = serde_json::from_str(&std::fs::read_to_string(r).expect("replay file")).expect("json");
+        vec![MmioParams::from_json(&v["params"])]
+    } else {
+        all_params(args.tier == "thorough", args.seed)
+    };
+    let out = Arc::new(out::Out::create(&args.out));
+    let index: Vec<Value> = jobs.iter().enumerate().map(|(k, p)| json!({"sc": format!("mmio-{k}"), "params": p.to_json()})).collect();
+    let res = run_parallel(jobs, |p, k| run(p, &format!("mmio-{k}")), out.clone());
+    let idx = json!({"family":"mmio","scenarios":index,"summaries":res,"events":out.events.load(Ordering::Relaxed)});
+    std::fs::write(format!("{}.index.json", args.out), serde_json::to_string(&idx).unwrap()).unwrap();
+    0
+}
+
+fn family_cfg(args: &Args) -> i32 {
+    use scen_cfg::*;
+    let jobs: Vec<CfgParams> = if let Some(r) = &args.replay {
+        let v: Value = serde_json::from_str(&std::fs::read_to_string(r).expect("replay file")).expect("json");
+        vec![CfgParams::from_json(&v["params"])]
+    } else {
+        all_params(args.tier == "thorough")
+    };
+    let out = Arc::new(out::Out::create(&args.out));
+    let index: Vec<Value> = jobs.iter().enumerate().map(|(k, p)| json!({"sc": format!("cfg-{k}"), "params": p.to_json()})).collect();
+    let res = run_parallel(jobs, |p, k| run(p, &format!("cfg-{k}")), out.clone());
+    let idx = json!({"family":"cfg","scenarios":index,"summaries":res,"events":out.events.load(Ordering::Relaxed)});
     std::fs::write(format!("{}.index.json", args.out), serde_json::to_string(&idx).unwrap()).unwrap();
     0
 }
